@@ -84,6 +84,7 @@ type pathState struct {
 	localLoc   *Value
 	tzOff      *Term
 	now        *Term
+	now0       *Term
 	preSlots   map[*Value]bool
 	preObjs    map[*ByteObj]bool
 	preMaps    map[*MapVal]bool
